@@ -568,6 +568,11 @@ def model_product(ip, args, kwargs):
     lexicographic order, each exactly once (language semantics, assumed)"""
     it = args[0]
     if not (isinstance(it, Struct) and it.cls == "IntRange"):
+        if not kwargs:
+            # concrete iterables: the cartesian product in lexicographic order
+            import itertools
+            lists = [ip.iterate_concrete(x) for x in args]
+            return PList([tuple(c) for c in itertools.product(*lists)])
         raise Unsupported("product over a non range")
     return Struct("Product", lo=it.f["lo"], hi=it.f["hi"], repeat=term(kwargs["repeat"]))
 
